@@ -1243,6 +1243,8 @@ func (p *Printer) command(cmd Command, redirs []*Redirect) (startRedirs int) {
 		p.wantNewline = p.wantNewline || p.funcNextLine
 		p.nestedStmts(cmd.Stmts, cmd.Last, cmd.Rbrace)
 		p.semiRsrv("}", cmd.Rbrace)
+		// An empty block left the flag set; see the CaseClause case.
+		p.wroteSemi = false
 	case *IfClause:
 		p.ifClause(cmd, false)
 	case *Subshell:
